@@ -37,6 +37,18 @@ class Abort(Exception):
     pass
 
 
+class Fork(Exception):
+    """a data-dependent condition was met for which the caller has not fixed a decision yet"""
+    pass
+
+
+CABS = sp.Function("cabs")
+
+
+def _symbolic(x):
+    return isinstance(x, sp.Basic) and bool(x.free_symbols or x.has(CABS))
+
+
 def tokenize(text):
     toks = []
     for m in re.finditer(r"\s*(?:(\d+\.\d*|\.\d+|\d+)|([A-Za-z_]\w*)|(\+\+|--|<=|>=|==|!=|\+=|-=|\*=|/=|\|=|&&|\|\||.))", text, re.S):
@@ -56,6 +68,8 @@ class Machine:
         self.scal = {"n": n}
         self.macros = {}        # name -> (params, token list)
         self.zsyms = zsyms      # list of (q, x) per port for sqrt/creal handling
+        self.decisions = []     # outcomes fixed by the caller for the data-dependent conditions, in order of occurrence
+        self.path = []          # (condition, outcome) for every data-dependent condition met
 
 
 class Interp:
@@ -116,6 +130,16 @@ class Interp:
             cond = self.expr()
             self.expect(")")
             body = self.skip_block_tokens()
+            if self.peek() == ("id", "else"):
+                raise Abort("else branch")
+            if _symbolic(cond):
+                # data-dependent branch: the caller enumerates both outcomes (Fork), every path is verified
+                k = len(self.m.path)
+                if k >= len(self.m.decisions):
+                    raise Fork()
+                taken = bool(self.m.decisions[k])
+                self.m.path.append((cond, taken))
+                cond = taken
             if body and body[0] == ("id", "return"):
                 if cond:
                     raise Abort("early return taken")
@@ -242,7 +266,7 @@ class Interp:
         else:
             raise Abort("unsupported assignment operator %r" % op)
 
-    def kernel(self, name, args):
+    def kernel(self, name, args, want_det=False):
         n = self.m.n
         A = lambda nm: sp.Matrix(n, n, list(self.m.arr[nm]))  # noqa: E731
         if name == "_vnacommon_mldivide":
@@ -254,9 +278,11 @@ class Interp:
         else:
             x, a = args[0], args[1]
             X = A(a).inv(method="LU")
+        det = sp.factor(A(a).det(method="berkowitz")) if want_det else None
         out = self.m.arr[x]
         for k in range(n * n):
             out[k] = sp.cancel(X[k])
+        return det
 
     def lvalue(self):
         tok = self.next()
@@ -307,6 +333,8 @@ class Interp:
             if op in ("==", "!="):
                 eq = sp.simplify(sp.sympify(v) - sp.sympify(r)) == 0
                 v = eq if op == "==" else not eq
+            elif _symbolic(v) or _symbolic(r):
+                v = {"<": sp.Lt, "<=": sp.Le, ">": sp.Gt, ">=": sp.Ge}[op](sp.sympify(v), sp.sympify(r), evaluate=False)
             else:
                 v = bool({"<": v < r, "<=": v <= r, ">": v > r, ">=": v >= r}[op])
         return v
@@ -367,6 +395,25 @@ class Interp:
                     if sp.expand(a - q ** 2) == 0:
                         return q
                 raise Abort("sqrt of something other than |Re z0|")
+            if name == "cabs":
+                self.expect("(")
+                a = self.expr()
+                self.expect(")")
+                return CABS(a) if _symbolic(a) else sp.Abs(sp.sympify(a).subs(J, sp.I))
+            if name == "DBL_EPSILON":
+                return sp.Rational(1, 2 ** 52)
+            if name == "NAN":
+                return sp.nan
+            if name in ("_vnacommon_mldivide", "_vnacommon_mrdivide", "_vnacommon_minverse"):
+                # kernel called for its value: the determinant of the system matrix
+                self.expect("(")
+                args = []
+                while True:
+                    args.append(self.next()[1])
+                    if self.accept(")"):
+                        break
+                    self.expect(",")
+                return self.kernel(name, args, want_det=True)
             if name in ("true", "false"):
                 return name == "true"
             if name == "sizeof":
@@ -399,8 +446,10 @@ def extract(fname):
     return m.group(1), m.group(2), text[m.start():m.end()]
 
 
-def run(fname, n, inp, z0, alias=False):
-    """returns the output array (list) after executing fname on input list `inp` (n*n) and z0 list"""
+def run(fname, n, inp, z0, alias=False, decisions=(), path_out=None):
+    """returns the output array (list) after executing fname on input list `inp` (n*n) and z0 list;
+    `decisions` fixes the outcomes of data-dependent conditions (Fork is raised when one is missing),
+    the conditions met are appended to `path_out`"""
     sig, body, _ = extract(fname)
     body = re.sub(r"/\*.*?\*/", " ", body, flags=re.S)
     params = [" ".join(p.split()) for p in sig.split(",")]
@@ -422,6 +471,7 @@ def run(fname, n, inp, z0, alias=False):
     for k in range(n):
         zs.append((sp.Symbol("q%d" % (k + 1)), sp.Symbol("x%d" % (k + 1))))
     mach = Machine(n, arrays, zs)
+    mach.decisions = list(decisions)
     # macros and statements
     lines = []
     for raw in body.split("\n"):
@@ -438,7 +488,26 @@ def run(fname, n, inp, z0, alias=False):
             raise Abort("unexpected preprocessor line %r" % s_)
         lines.append(s_)
     Interp(tokenize(" ".join(lines)), mach).block()
+    if path_out is not None:
+        path_out.extend(mach.path)
     return arrays[out_name][:outlen]
+
+
+def explore(fname, n, inp, z0):
+    """every path through the function: list of (decisions, output, path conditions)"""
+    done, todo = [], [()]
+    while todo:
+        d = todo.pop()
+        path = []
+        try:
+            out = run(fname, n, inp, z0, decisions=d, path_out=path)
+        except Fork:
+            if len(d) >= 4:
+                raise Abort("more than 4 nested data-dependent conditions")
+            todo += [d + (True,), d + (False,)]
+            continue
+        done.append((d, out, path))
+    return done
 
 
 # ---------------------------------------------------------------------------
@@ -497,12 +566,25 @@ def verify(fname, n, numeric_seed=None, z0_pattern=None):
             sub[sp.Symbol("q%d" % (k + 1))] = qs[g]
             sub[sp.Symbol("x%d" % (k + 1))] = xs[k]
         z0 = z0_syms(n)
-    obs = []
     z0s = [sp.expand(z.subs(sub)) for z in z0]
-    out = run(fname, n, M, z0s)
+    obs = []
+    for (dec, out, path) in explore(fname, n, M, z0s):
+        tag = ""
+        if path:
+            tag = " path=%s [%s]" % ("".join("T" if t else "F" for _c, t in path),
+                                     "; ".join(("" if t else "not ") + str(c)[:80] for c, t in path))
+        for name, ok in _verify_path(fname, n, X, Y, M, z0s, sub, v, i, out, dec, numeric_seed):
+            obs.append((name + tag, ok))
+    return obs
+
+
+def _verify_path(fname, n, X, Y, M, z0s, sub, v, i, out, dec, numeric_seed):
+    obs = []
     Msub = list(M)
 
     def zero(e):
+        if getattr(e, "has", None) and e.has(sp.nan):
+            return False
         e = sp.cancel(sp.together(e.subs(sub) if hasattr(e, "subs") else e))
         num = sp.expand(sp.fraction(e)[0])
         if num == 0:
@@ -540,13 +622,13 @@ def verify(fname, n, numeric_seed=None, z0_pattern=None):
             res = (v[k] - out[k] * i[k]).subs(st).subs(st)
             obs.append(("ZI[%d]" % k, zero(res)))
         # aliasing: the Zin vector written over the input matrix's own storage (vnadata_convert in place)
-        out2 = run(fname, n, M, z0s, alias=True)
+        out2 = run(fname, n, M, z0s, alias=True, decisions=dec)
         obs.append(("AL", all(zero(p - q_) for p, q_ in zip(out, out2))))
     else:
         rout = [e.subs(sub) for e in relation(Y, out, n, v, i, z0s)]
         for r, e in enumerate(rout):
             obs.append(("R[%d]" % r, zero(e.subs(solved))))
-        out2 = run(fname, n, M, z0s, alias=True)
+        out2 = run(fname, n, M, z0s, alias=True, decisions=dec)
         obs.append(("AL", all(zero(p - q_) for p, q_ in zip(out, out2))))
         if n == 2 and Y in "szy" and numeric_seed is None:
             # agreement with the two-port function at n = 2
@@ -557,6 +639,62 @@ def verify(fname, n, numeric_seed=None, z0_pattern=None):
             o2, _, _ = slvc.run_function(two, env)
             obs.append(("N2(%s)" % two, all(zero(out[r * 2 + c] - o2[(r, c)]) for r in range(2) for c in range(2))))
     return obs
+
+
+def path_witness_on_real_code(fname, lib):
+    """an obligation failed on a data-dependent path: look for an input of the REAL function on which the defining
+    relation is broken (random well-conditioned matrices at several magnitudes, n = 2, 3, 6).  None when the real
+    code satisfies the relation on every sample (the path may be infeasible: nothing is decided then)."""
+    import ctypes
+    import random
+    import numpy as np
+    mm = re.fullmatch(r"vnaconv_([szy])to([szy])n", fname)
+    if not mm:
+        return None
+    X, Y = mm.group(1), mm.group(2)
+    sig, _b, _t = extract(fname)
+    has_z0 = "z0" in sig
+    L = ctypes.CDLL(lib)
+    rnd = random.Random(2468)
+    for n in (2, 3, 6):
+        for scale in (1.0, 1e-3, 1e-6, 1e-9, 1e-12, 1e3, 1e6, 1e9):
+            for _ in range(3):
+                M = np.array([[complex(rnd.uniform(-1, 1), rnd.uniform(-1, 1)) for _ in range(n)] for _ in range(n)])
+                M = (M + 3.0 * np.eye(n)) * scale           # diagonally dominant: condition number of order one
+                if X == "s":
+                    M = M / (8.0 * scale) if scale != 1.0 else M / 8.0     # |S| < 1; scaling S is not meaningful
+                z0 = np.array([complex(rnd.uniform(20, 100), rnd.uniform(-30, 30)) for _ in range(n)])
+                out = np.zeros((n, n), dtype=complex)
+                Min = np.ascontiguousarray(M)
+                args = [Min.ctypes.data_as(ctypes.c_void_p), out.ctypes.data_as(ctypes.c_void_p)]
+                if has_z0:
+                    args.append(z0.ctypes.data_as(ctypes.c_void_p))
+                args.append(ctypes.c_int(n))
+                getattr(L, fname)(*args)
+                # a state satisfying the input relation
+                rhs = np.array([complex(rnd.uniform(-1, 1), rnd.uniform(-1, 1)) for _ in range(n)])
+                lhs = Min @ rhs
+                q = np.sqrt(np.abs(z0.real))
+                if X == "s":
+                    a, b = rhs, lhs
+                    i_ = q * (a - b) / z0.real
+                    v_ = 2.0 * q * a - z0 * i_
+                elif X == "z":
+                    i_, v_ = rhs, lhs
+                else:
+                    v_, i_ = rhs, lhs
+                a_ = (v_ + z0 * i_) / (2.0 * q)
+                b_ = (v_ - np.conj(z0) * i_) / (2.0 * q)
+                l2, r2 = {"s": (b_, a_), "z": (v_, i_), "y": (i_, v_)}[Y]
+                res = l2 - out @ r2
+                ref = max(float(np.max(np.abs(l2))), 1e-300)
+                bad = (not np.all(np.isfinite(out))) or float(np.max(np.abs(res))) > 1e-6 * ref
+                if bad:
+                    return dict(n=n, input=[[str(c) for c in row] for row in Min.tolist()], z0=[str(c) for c in z0],
+                                output=[[str(c) for c in row] for row in out.tolist()],
+                                relative_residual=(None if not np.all(np.isfinite(res)) else float(np.max(np.abs(res))) / ref),
+                                note="real %s called through ctypes; %s-relation state mapped through the returned matrix" % (fname, Y))
+    return None
 
 
 def all_functions():
